@@ -41,7 +41,7 @@ def slice_key(sl):
 
 def run(repo):
     res = RuleResult(RULE, 'row-layout agreement in the robust counterpart', TEXT)
-    res.floor = 3
+    res.floor = 4
     fi = repo.func('lp.RoConstr.le_to_rc')
     res.functions.add(fi.fq)
     defs = single_defs(fi.node)
@@ -122,6 +122,46 @@ def run(repo):
             for pr in probs:
                 res.fail(Finding(RULE, fi.fq, 'sense layout of block %d' % n_blocks,
                                  'le_to_rc: the sense vector `%s` %s' % (ntext(sense)[:30], pr), repo.where(fi, n), P))
+    # (c) the random coefficients enter the stationarity rows scaled by the support's constant vector over the
+    #     same rows:  left = left + self.raffine[:, S] * support.const[S].  The support is a *dual* program
+    #     whose constant is the cost vector of the primal after the sign changes of the dual construction
+    #     (an entry is -1 where the variable's upper bound is 0): leaving the factor out mirrors those variables.
+    n_terms = 0
+    for n in assigns:
+        v = n.value
+        if not any(isinstance(x, ast.Attribute) and x.attr == 'raffine' and ntext(x.value) == 'self' for x in ast.walk(v)):
+            continue
+        name = n.targets[0].id
+        if not (isinstance(v, ast.BinOp) and isinstance(v.op, ast.Add) and
+                any(isinstance(x, ast.Name) and x.id == name for x in (v.left, v.right))):
+            continue                 # not an accumulation onto a block of stationarity rows
+        term = v.right if isinstance(v.left, ast.Name) and v.left.id == name else v.left
+        term = expand_locals(fi.node, term, depth=4, defs={k_: d_ for k_, d_ in defs.items() if k_ != dual})
+        n_terms += 1
+        blk = cur.get(name)
+        st_c, bc, _ = pmatch('self.raffine[:, _S] * _SUP.const[_S2]', term)
+        if st_c != 'match':
+            st_c, bc, _ = pmatch('_SUP.const[_S2] * self.raffine[:, _S]', term)
+        probs = []
+        if st_c == 'match':
+            if slice_key(bc['_S'][2]) != slice_key(bc['_S2'][2]):
+                probs.append('scales self.raffine[:, %s] by %s.const[%s]: different rows'
+                             % (bc['_S'][1], bc['_SUP'][1], bc['_S2'][1]))
+        elif pmatch('self.raffine[:, _S]', term)[0] == 'match' or pmatch('self.raffine', term)[0] == 'match':
+            probs.append('adds the random coefficients `%s` without the factor <support>.const[..] of the same rows'
+                         % ntext(term)[:40])
+        else:
+            raise AnalysisError('le_to_rc: the random-coefficient term `%s` of the stationarity rows has a form the '
+                                'rule does not interpret' % ntext(term)[:60])
+        ok = not probs
+        res.inst({'stationarity': ntext(n)[:70], 'scaled_by_support_const': ok}, ok)
+        for pr in probs:
+            res.fail(Finding(RULE, fi.fq, 'random coefficients in the stationarity rows',
+                             'le_to_rc: `%s` %s; for a variable of the set whose upper bound is 0 the dual construction '
+                             'stores -1 there, so the counterpart would protect against the mirrored variable'
+                             % (ntext(n)[:60], pr), repo.where(fi, n), P))
+    if n_terms < 1:
+        raise AnalysisError('le_to_rc: the term adding self.raffine to the stationarity rows was not found')
     if n_blocks < 2:
         raise AnalysisError('le_to_rc: only %d stationarity blocks (dual_var @ support.linear[S].T -> LinConstr) found'
                             % n_blocks)
